@@ -939,102 +939,107 @@ pub fn suite_deadline(ctx: &mut Ctx) {
             if !ctx.take() {
                 continue;
             }
-            if alg == Algorithm::Lcs && old.len() + new.len() > 100 {
-                continue;
+            deadline_pair(ctx, alg, old, new, pi);
+        }
+    }
+}
+
+/// one input pair under every expiry point of the virtual clock (all C07 validators, C01/C02/C09 under deadlines)
+pub fn deadline_pair(ctx: &mut Ctx, alg: Algorithm, old: &[u32], new: &[u32], pi: usize) {
+    if alg == Algorithm::Lcs && old.len() + new.len() > 100 {
+        return;
+    }
+    let mut base = Case::full(alg, old, new);
+    // every third pair: a sub-range whose old and new starts differ
+    if pi % 3 == 1 && old.len() >= 2 && new.len() >= 3 {
+        base.os = 1;
+        base.ns = 2;
+    }
+    let none = run_case(&base);
+    // a deadline that never expires
+    let mut never = base.clone();
+    never.dl = Some(u64::MAX / 2);
+    let (nreq, nout) = emit_case(ctx, &never);
+    if nout.trace != none.trace || nout.status != none.status {
+        ctx.violation("C07", &nreq, "a deadline that never expires changes the result".to_string());
+    }
+    let total = nout.probes;
+    ctx.max("deadline.max_probes", total);
+    // promptness in REAL time: the deadline can pass at any moment, and it is noticed at the next probe -- so the
+    // work between two consecutive probes must stay linear: Myers one d-iteration (two passes), LCS one table row,
+    // Patience in addition its scans
+    let nm = ((base.oe - base.os) + (base.ne - base.ns)) as u64;
+    ctx.max(&format!("deadline.max_probe_gap_x1000_per_item.{}", alg_name(alg)), nout.max_probe_gap * 1000 / nm.max(1));
+    if total > 0 && nout.max_probe_gap > 4 * nm + 8 {
+        ctx.violation("C07", &nreq, format!("{} comparisons between two consecutive deadline checks for N+M = {}: an expiry in between is noticed too late", nout.max_probe_gap, nm));
+    }
+    // every expiry point (sampled beyond 40 for long runs)
+    let ks: Vec<u64> = if total <= 40 { (0..=total + 1).collect() } else {
+        let mut v: Vec<u64> = (0..=12).collect();
+        let mut r2 = Rng::new(ctx.seed ^ pi as u64);
+        for _ in 0..20 { v.push(r2.below(total as usize + 1) as u64); }
+        v.push(total); v.push(total + 1);
+        v
+    };
+    for kx in ks {
+        let mut c = base.clone();
+        c.dl = Some(kx);
+        let (req, out) = emit_case(ctx, &c);
+        ctx.count("deadline.expiry_runs");
+        check_raw(ctx, &c, &out, &req);
+        if out.status == Status::Ok {
+            if let Err(e) = oracle::finish_once_last(&out.trace) {
+                ctx.violation("C07", &req, e);
             }
-            let mut base = Case::full(alg, old, new);
-            // every third pair: a sub-range whose old and new starts differ
-            if pi % 3 == 1 && old.len() >= 2 && new.len() >= 3 {
-                base.os = 1;
-                base.ns = 2;
-            }
-            let none = run_case(&base);
-            // a deadline that never expires
-            let mut never = base.clone();
-            never.dl = Some(u64::MAX / 2);
-            let (nreq, nout) = emit_case(ctx, &never);
-            if nout.trace != none.trace || nout.status != none.status {
-                ctx.violation("C07", &nreq, "a deadline that never expires changes the result".to_string());
-            }
-            let total = nout.probes;
-            ctx.max("deadline.max_probes", total);
-            // promptness in REAL time: the deadline can pass at any moment, and it is noticed at the next probe -- so the
-            // work between two consecutive probes must stay linear: Myers one d-iteration (two passes), LCS one table row,
-            // Patience in addition its scans
-            let nm = ((base.oe - base.os) + (base.ne - base.ns)) as u64;
-            ctx.max(&format!("deadline.max_probe_gap_x1000_per_item.{}", alg_name(alg)), nout.max_probe_gap * 1000 / nm.max(1));
-            if total > 0 && nout.max_probe_gap > 4 * nm + 8 {
-                ctx.violation("C07", &nreq, format!("{} comparisons between two consecutive deadline checks for N+M = {}: an expiry in between is noticed too late", nout.max_probe_gap, nm));
-            }
-            // every expiry point (sampled beyond 40 for long runs)
-            let ks: Vec<u64> = if total <= 40 { (0..=total + 1).collect() } else {
-                let mut v: Vec<u64> = (0..=12).collect();
-                let mut r2 = Rng::new(ctx.seed ^ pi as u64);
-                for _ in 0..20 { v.push(r2.below(total as usize + 1) as u64); }
-                v.push(total); v.push(total + 1);
-                v
-            };
-            for kx in ks {
-                let mut c = base.clone();
-                c.dl = Some(kx);
-                let (req, out) = emit_case(ctx, &c);
-                ctx.count("deadline.expiry_runs");
-                check_raw(ctx, &c, &out, &req);
-                if out.status == Status::Ok {
-                    if let Err(e) = oracle::finish_once_last(&out.trace) {
-                        ctx.violation("C07", &req, e);
-                    }
-                    // a deadline that had expired before the call: every comparison is "after expiry"
-                    let at_expiry = if kx == 0 { Some(0) } else { out.at_expiry };
-                    if let Some(at) = at_expiry {
-                        let after = out.cmps - at;
-                        ctx.max(&format!("deadline.max_cmps_after_expiry_x1000_per_item.{}", alg_name(alg)), after * 1000 / ((old.len() + new.len()) as u64).max(1));
-                        // expired at entry: the prefix/suffix scans still run
-                        let bound = if kx == 0 {
-                            expired_entry_bound(alg, base.oe - base.os, base.ne - base.ns)
-                        } else {
-                            post_expiry_bound(alg, base.oe - base.os, base.ne - base.ns)
-                        };
-                        if after > bound {
-                            ctx.violation("C07", &req, format!("{} comparisons after expiry for N+M = {}", after, old.len() + new.len()));
-                        }
-                        ctx.nontrivial(&req);
-                    } else if kx <= total.saturating_sub(1) && total > 0 {
-                        ctx.violation("C07", &req, "clock fuel below the probe count but the deadline never expired".to_string());
-                    }
-                    if kx >= total && out.trace != none.trace {
-                        ctx.violation("C07", &req, "fuel >= probes of the full run but the result differs from no deadline".to_string());
-                    }
+            // a deadline that had expired before the call: every comparison is "after expiry"
+            let at_expiry = if kx == 0 { Some(0) } else { out.at_expiry };
+            if let Some(at) = at_expiry {
+                let after = out.cmps - at;
+                ctx.max(&format!("deadline.max_cmps_after_expiry_x1000_per_item.{}", alg_name(alg)), after * 1000 / ((old.len() + new.len()) as u64).max(1));
+                // expired at entry: the prefix/suffix scans still run
+                let bound = if kx == 0 {
+                    expired_entry_bound(alg, base.oe - base.os, base.ne - base.ns)
                 } else {
-                    ctx.violation("C07", &req, format!("{:?} under an expiring deadline", out.status));
+                    post_expiry_bound(alg, base.oe - base.os, base.ne - base.ns)
+                };
+                if after > bound {
+                    ctx.violation("C07", &req, format!("{} comparisons after expiry for N+M = {}", after, old.len() + new.len()));
                 }
-                // the same expiry point through `Replace` alone (the fallback's delete + insert must
-                // reach the adapter as such and come out as one valid script)
-                let mut cr = c.clone();
-                cr.stack = Stack::Replace;
-                let (rreq, rout) = emit_case(ctx, &cr);
-                if rout.status != Status::Ok {
-                    ctx.violation("C07", &rreq, format!("{:?} under an expiring deadline through Replace", rout.status));
-                } else {
-                    if let Err(e) = oracle::finish_once_last(&rout.trace) {
-                        ctx.violation("C07", &rreq, e);
-                    }
-                    let calls = oracle::strip_finish(&rout.trace);
-                    if let Err(e) = oracle::walk(&cr.old, &cr.new, cr.o_off, cr.n_off, ranges(&cr), &calls, false) {
-                        ctx.violation("C07", &rreq, format!("through Replace: {}", e));
-                    }
-                }
-                // capture pipeline under the same clock (C02/C09 with deadline, plumbing of capture_diff_deadline)
-                let creq = capture_request(&c);
-                let cap = run_capture(&c);
-                ctx.emit(&creq, &cap.show());
-                check_cap(ctx, &c, &cap, &creq);
-                if kx == 0 && total > 0 {
-                    // plumbing: an already expired deadline must reach the algorithm
-                    if cap.probes == 0 {
-                        ctx.violation("C07", &creq, "capture_diff_deadline: the deadline did not reach the algorithm (no probe)".to_string());
-                    }
-                }
+                ctx.nontrivial(&req);
+            } else if kx <= total.saturating_sub(1) && total > 0 {
+                ctx.violation("C07", &req, "clock fuel below the probe count but the deadline never expired".to_string());
+            }
+            if kx >= total && out.trace != none.trace {
+                ctx.violation("C07", &req, "fuel >= probes of the full run but the result differs from no deadline".to_string());
+            }
+        } else {
+            ctx.violation("C07", &req, format!("{:?} under an expiring deadline", out.status));
+        }
+        // the same expiry point through `Replace` alone (the fallback's delete + insert must
+        // reach the adapter as such and come out as one valid script)
+        let mut cr = c.clone();
+        cr.stack = Stack::Replace;
+        let (rreq, rout) = emit_case(ctx, &cr);
+        if rout.status != Status::Ok {
+            ctx.violation("C07", &rreq, format!("{:?} under an expiring deadline through Replace", rout.status));
+        } else {
+            if let Err(e) = oracle::finish_once_last(&rout.trace) {
+                ctx.violation("C07", &rreq, e);
+            }
+            let calls = oracle::strip_finish(&rout.trace);
+            if let Err(e) = oracle::walk(&cr.old, &cr.new, cr.o_off, cr.n_off, ranges(&cr), &calls, false) {
+                ctx.violation("C07", &rreq, format!("through Replace: {}", e));
+            }
+        }
+        // capture pipeline under the same clock (C02/C09 with deadline, plumbing of capture_diff_deadline)
+        let creq = capture_request(&c);
+        let cap = run_capture(&c);
+        ctx.emit(&creq, &cap.show());
+        check_cap(ctx, &c, &cap, &creq);
+        if kx == 0 && total > 0 {
+            // plumbing: an already expired deadline must reach the algorithm
+            if cap.probes == 0 {
+                ctx.violation("C07", &creq, "capture_diff_deadline: the deadline did not reach the algorithm (no probe)".to_string());
             }
         }
     }
@@ -1442,10 +1447,20 @@ pub fn suite_cost(ctx: &mut Ctx) {
                 c.salt = obs::STR_HASH;
                 ctx.count("cost.string_hash_cases");
             }
-            let (req, out) = emit_case(ctx, &c);
+            cost_case(ctx, &c);
+        }
+    }
+}
+
+/// C19 on one case: comparisons against (N+M+1)(D+1), same-side comparisons linear
+pub fn cost_case(ctx: &mut Ctx, c: &Case) {
+    let alg = c.alg;
+    {
+        {
+            let (req, out) = emit_case(ctx, c);
             if out.status != Status::Ok {
                 ctx.violation("C19", &req, format!("{:?}", out.status));
-                continue;
+                return;
             }
             let calls = oracle::strip_finish(&out.trace);
             let (d, ins, _) = oracle::cost(&calls);
@@ -1470,6 +1485,88 @@ pub fn suite_cost(ctx: &mut Ctx) {
                 ctx.nontrivial(&req);
                 ctx.count("cost.near_identical_cases");
             }
+        }
+    }
+}
+
+/* ------------------------------------------------------------------------------------------ */
+/* search around a request on which model and implementation disagree                          */
+
+/// `harness search <request>`: when the correspondence breaks on a request but every validator passed on the suite's
+/// own inputs, the failing input may need MORE of what the disagreeing request has: more items, a longer common head,
+/// the other algorithm, a deadline, a sub-range. This runs every sequence-level validator (C01 C02 C03 C07 C08 C09 C11
+/// C15 C19 …) on amplified variants of the request's two sequences on the IMPLEMENTATION (the model is not involved)
+/// and collects the failures in `ctx.violations`; each carries a replayable request.
+pub fn search(line: &str, ctx: &mut Ctx) {
+    let parts: Vec<&str> = line.split('|').map(|s| s.trim()).collect();
+    if parts.len() < 3 {
+        return;
+    }
+    let (old, new) = match (parse_seq(parts[1]), parse_seq(parts[2])) {
+        (Some((_, o)), Some((_, n))) => (o, n),
+        _ => return,
+    };
+    let fresh = |k: usize, base: u32| -> Vec<u32> { (0..k as u32).map(|i| base + i).collect() };
+    let rep = |v: &[u32], k: usize| -> Vec<u32> { (0..k).flat_map(|_| v.iter().copied()).collect() };
+    let stretch = |v: &[u32], k: usize| -> Vec<u32> { v.iter().flat_map(|&x| std::iter::repeat(x).take(k)).collect() };
+    let mut variants: Vec<(Vec<u32>, Vec<u32>)> = vec![(old.clone(), new.clone()), (new.clone(), old.clone())];
+    for k in [2usize, 4, 8, 16, 40, 130] {
+        if (old.len() + new.len()) * k <= 6000 {
+            variants.push((rep(&old, k), rep(&new, k)));
+            variants.push((rep(&old, k), rep(&new, k + 1)));
+            // repetitions made distinct: block i uses labels shifted by i * 10_000 (keeps the equality pattern inside a block)
+            let sh = |v: &[u32]| -> Vec<u32> { (0..k).flat_map(|i| v.iter().map(move |&x| x + 10_000 * i as u32)).collect() };
+            variants.push((sh(&old), sh(&new)));
+        }
+        if (old.len() + new.len()) * k <= 3000 && k <= 16 {
+            variants.push((stretch(&old, k), stretch(&new, k)));
+        }
+    }
+    for h in [1usize, 3, 70, 130, 300, 4200] {
+        let head = fresh(h, 3_000_000);
+        let tail = fresh(h, 4_000_000);
+        let cat = |a: &[u32], b: &[u32], c: &[u32]| -> Vec<u32> { [a, b, c].concat() };
+        variants.push((cat(&head, &old, &[]), cat(&head, &new, &[])));
+        variants.push((cat(&[], &old, &tail), cat(&[], &new, &tail)));
+        variants.push((cat(&head, &old, &tail), cat(&head, &new, &tail)));
+    }
+    // unrelated padding in front of one side only (sub-ranges with different starts are derived below)
+    let mut seen = std::collections::HashSet::new();
+    for (vi, (o, n)) in variants.into_iter().enumerate() {
+        if !seen.insert((o.clone(), n.clone())) {
+            continue;
+        }
+        for alg in ALGS {
+            if alg == Algorithm::Lcs && o.len().saturating_mul(n.len()) > 400_000 {
+                continue;
+            }
+            let c = vary_hash(Case::full(alg, &o, &n));
+            let (req, out) = emit_case(ctx, &c);
+            check_raw(ctx, &c, &out, &req);
+            cap_one(ctx, &c);
+            if alg != Algorithm::Lcs {
+                // with the items' ordinary hash (a colliding or constant test hash makes the hash maps quadratic by design)
+                cost_case(ctx, &Case::full(alg, &o, &n));
+            }
+            if o.len() + n.len() <= 400 {
+                deadline_pair(ctx, alg, &o, &n, vi);
+            }
+            // differing non-zero starts through offset lookups
+            if o.len() >= 2 && n.len() >= 2 {
+                let mut cs = Case::full(alg, &o, &n);
+                cs.o_off = 5;
+                cs.n_off = 2;
+                cs.os = 5 + 1;
+                cs.oe = 5 + o.len();
+                cs.ns = 2;
+                cs.ne = 2 + n.len() - 1;
+                let (req, out) = emit_case(ctx, &cs);
+                check_raw(ctx, &cs, &out, &req);
+                cap_one(ctx, &cs);
+            }
+        }
+        if ctx.violations.iter().filter(|v| v.known.is_none()).count() >= 40 {
+            break;
         }
     }
 }
